@@ -46,6 +46,33 @@ package module
 //@     invariant view(list) == snap(iterator)[0:pos(iterator)]
 //@     decreases len(snap(iterator)) - pos(iterator)
 
+// Set[V]: no data argument, a Go array, or CDCN source (at most one argument): the members are exactly the given values
+//@ func Set
+//@   props C20
+//@   nilok
+//@   uses smem_snoc, smem_take_all, smem_take_none, smem_empty
+//@   requires len(arguments) <= 1
+//@   requires len(arguments) == 1 ==> typeis(arguments[0], sliceof(V)) || typeis(arguments[0], "string")
+//@   modifies region(cstate)
+//@   ensures[C20] result != nil && fresh(result) && collator(result) != nil && sorted(collator(result), view(result))
+//@   ensures[C20] len(arguments) == 0 ==> view(result) == empty()
+//@   ensures[C20] len(arguments) == 1 && typeis(arguments[0], sliceof(V)) ==> (forall y U :: smem(collator(result), view(result), y) <==> smem(collator(result), view(unboxSlice(arguments[0])), y))
+//@   ensures[C20] len(arguments) == 1 && typeis(arguments[0], "string") && len(unboxStr(arguments[0])) > 0 ==> (forall y U :: smem(collator(result), view(result), y) <==> smem(collator(result), view(parsedval(unboxStr(arguments[0]))), y))
+//@   loop 1:
+//@     invariant -1 <= rangeindex && rangeindex <= 0 && rangeindex < len(arguments) && notation != nil && collator == nil && sequence == nil
+//@     invariant rangeindex == -1 ==> len(values) == 0 && arr(values) == nil && source == ""
+//@     invariant rangeindex == 0 && typeis(arguments[0], sliceof(V)) ==> values == unboxSlice(arguments[0]) && source == ""
+//@     invariant rangeindex == 0 && typeis(arguments[0], "string") ==> source == unboxStr(arguments[0]) && len(values) == 0
+//@     decreases 1 - rangeindex
+//@   loop 2:
+//@     unreachable
+//@   loop 3:
+//@     unreachable
+//@   loop 4:
+//@     invariant set != nil && fresh(set) && collator(set) != nil && sorted(collator(set), view(set)) && snap(iterator) == view(parsedval(source)) && 0 <= pos(iterator) && pos(iterator) <= len(snap(iterator))
+//@     invariant forall y U :: smem(collator(set), view(set), y) <==> smem(collator(set), snap(iterator)[0:pos(iterator)], y)
+//@     decreases len(snap(iterator)) - pos(iterator)
+
 // Stack[V]: no data argument, a capacity, a Go array, or CDCN source (one data argument)
 //@ func Stack
 //@   props C20
